@@ -27,6 +27,10 @@ RULE = ("skeletons = all statement trees over {marker, break, continue, return, 
         "original); distinct by (placement, skeleton).")
 
 
+# iterable form of the for loops of a skeleton, cycled independently of the unparser (idx % 2)
+ITER_FORMS = (False, True, False, "nested", False, "iterator", False, True)
+
+
 def _cfgs_for(idx):
     u = env.UNPARSERS[idx % 2]
     return [(u, w, s) for (w, s) in env.SEMANTIC_CFGS]
@@ -41,6 +45,8 @@ def check_skeleton(part, sk, placement, cfgs, scheds, seed=0, walrus_iter=False)
     src = cf.program(sk, placement, walrus_iter=walrus_iter)
     if walrus_iter == "iterator":
         part["classes"]["for-over-iterator-object"] += 1
+    elif walrus_iter == "nested":
+        part["classes"]["walrus-nested-in-for-iterable"] += 1
     elif walrus_iter:
         part["classes"]["walrus-in-for-iterable"] += 1
     feats = cf.features(sk)
@@ -115,7 +121,7 @@ def _sweep_shard(item):
     for idx in range(shard, len(sks), nshards):
         if len(part["violations"]) >= 3:
             break
-        check_skeleton(part, sks[idx], placement, _cfgs_for(idx), SCHEDS, walrus_iter=(True if idx % 4 == 1 else "iterator" if idx % 4 == 3 else False))
+        check_skeleton(part, sks[idx], placement, _cfgs_for(idx), SCHEDS, walrus_iter=ITER_FORMS[(idx // 2) % 8])
     return part
 
 
@@ -129,7 +135,7 @@ def _sample_shard(item):
     def body(case):
         placement, sk, rs = case
         sub = new_part()
-        check_skeleton(sub, sk, placement, env.ALL_CFGS, (0, 2, rs), seed=seed & 0xffff, walrus_iter=(True if rs % 3 == 0 else "iterator" if rs % 3 == 1 else False))
+        check_skeleton(sub, sk, placement, env.ALL_CFGS, (0, 2, rs), seed=seed & 0xffff, walrus_iter=(True, "iterator", False, "nested")[rs % 4])
         for k in ("evaluations",):
             part[k] += sub[k]
         part["nontrivial"] |= sub["nontrivial"]
